@@ -85,6 +85,14 @@ class VT:
         self.queue = bytearray()
         self.replies: list = []
         self.now = 0.0
+        # signal mask model: SIGINT blocked? a SIGINT that arrived while blocked is pending
+        self.sig_blocked = False
+        self.sig_pending = False
+        # observations at the moment the call returned / raised (exception still held) and after
+        self.n_return = None
+        self.image_held = None
+        self.final_held = None
+        self.image_dropped = None
         self.set_log: list = []  # (action index, attrs != entry before, attrs == entry after) per executed tcsetattr
 
     # -- kernel state ---------------------------------------------------------------------
@@ -161,6 +169,13 @@ class VT:
         self.n += 1
         if self.fault is not None and k == self.fault[0]:
             _, en, after = self.fault
+            if en == "kbdInt" and self.sig_blocked:
+                # a REAL SIGINT arriving while blocked stays pending; the action goes on and the
+                # KeyboardInterrupt surfaces where the mask is lifted (fake pthread_sigmask)
+                self.sig_pending = True
+                self.fired_at = k
+                self.events.append(label + "!pending:kbdInt")
+                return effect() if effect is not None else None
             if after and effect is not None:
                 try:
                     effect()
@@ -173,6 +188,14 @@ class VT:
             raise EXC[en]("injected")
         self.events.append(label)
         return effect() if effect is not None else None
+
+    def trace(self) -> list:
+        """the actions up to the moment the call returned / raised"""
+        return self.events if self.n_return is None else self.events[:self.n_return]
+
+    def late(self) -> list:
+        """actions performed after that (finalizers of objects the exception kept alive)"""
+        return [] if self.n_return is None else self.events[self.n_return:]
 
     def script(self, seq: list, what: str):
         if not seq:
@@ -445,6 +468,94 @@ def line_of(d: dict) -> str:
     return "draw %s %d %d %s %s" % (a, d["hide"], d["nei"], body, fmt_plan(d["plan"]))
 
 
+
+import contextlib
+import gc
+import signal as _signal
+
+_REAL_SIGMASK = _signal.pthread_sigmask
+UNRAISABLE = {"n": 0, "last": []}
+
+
+def _unraisable(u):
+    """exceptions out of finalizers (`Exception ignored in …`: generator close at GC, __del__) are
+    counted and kept for the evidence instead of being sprayed over stderr"""
+    UNRAISABLE["n"] += 1
+    if len(UNRAISABLE["last"]) < 5:
+        UNRAISABLE["last"].append("%s in %r" % (type(u.exc_value).__name__, u.object))
+
+
+def fake_pthread_sigmask(how, mask):
+    v = vt()
+    if v is None:
+        return _REAL_SIGMASK(how, mask)
+
+    def eff():
+        old = {_signal.SIGINT} if v.sig_blocked else set()
+        has = _signal.SIGINT in set(mask)
+        if how == _signal.SIG_BLOCK:
+            v.sig_blocked = v.sig_blocked or has
+        elif how == _signal.SIG_UNBLOCK:
+            v.sig_blocked = v.sig_blocked and not has
+        else:
+            v.sig_blocked = has
+        if v.sig_pending and not v.sig_blocked:
+            v.sig_pending = False
+            v.events.append("deliver:kbdInt")
+            raise KeyboardInterrupt("pending SIGINT delivered")
+        return old
+
+    name = {_signal.SIG_BLOCK: "block", _signal.SIG_UNBLOCK: "unblock", _signal.SIG_SETMASK: "setmask"}.get(how, "?")
+    return v.act("sigmask(%s)" % name, eff)
+
+
+@contextlib.contextmanager
+def fake_signals():
+    _signal.pthread_sigmask = fake_pthread_sigmask
+    old_hook = sys.unraisablehook
+    sys.unraisablehook = _unraisable
+    try:
+        yield
+    finally:
+        _signal.pthread_sigmask = _REAL_SIGMASK
+        sys.unraisablehook = old_hook
+
+
+def run_call(v: VT, call) -> str:
+    """Run the operation.  ANY exception is an outcome, never a crash.  The attributes are observed
+    twice: when the call has returned / raised and the exception object is STILL HELD (a
+    suspended generator or frame kept alive by the traceback has not been finalised), and again
+    after the exception was dropped and the garbage collector ran."""
+    held = None
+    with fake_signals():
+        try:
+            try:
+                call()
+                out = "normal"
+            except ScriptExhausted as e:
+                out = "script-exhausted:" + str(e)
+            except BaseException as e:  # noqa: BLE001
+                held = e
+                out = "raised:" + exc_name(e)
+            v.fault = None  # the operation is over: nothing is injected into finalizers
+            v.n_return = len(v.events)
+            v.image_held = v.image()
+            v.final_held = v.final()
+            if v.sig_pending:
+                out += "+sigint-still-pending"
+            held = None  # drop the exception (and with it every frame its traceback kept alive)
+            gc.collect(1)
+            v.image_dropped = v.image()
+        except BaseException as e:  # noqa: BLE001 — e.g. out of a finalizer run by the collector
+            out = "harness-caught:" + type(e).__name__
+            if v.n_return is None:
+                v.n_return = len(v.events)
+                v.image_held = v.image()
+                v.final_held = v.final()
+            v.image_dropped = v.image()
+    return out
+
+
 def execute(d: dict, plan):
     """run the real operation of case-data d under fault plan `plan`; -> (VT, outcome string)"""
     op = d["op"]
@@ -493,13 +604,7 @@ def execute(d: dict, plan):
                 call = lambda: probe.draw(**kw)  # noqa: E731
             else:
                 call = lambda: probe.draw(loops=1, **kw)  # noqa: E731
-        try:
-            call()
-            out = "normal"
-        except ScriptExhausted as e:
-            out = "script-exhausted:" + str(e)
-        except BaseException as e:  # noqa: BLE001
-            out = "raised:" + exc_name(e)
+        out = run_call(v, call)
     finally:
         sys.stdout = saved_out
         U._queries_enabled = saved_q
@@ -561,13 +666,7 @@ def execute_comp(d: dict, plan):
         reset_query_state()
         CUR[0] = v
         U.read_tty = read_tty_ticking
-        try:
-            call()
-            out = "normal"
-        except ScriptExhausted as e:
-            out = "script-exhausted:" + str(e)
-        except BaseException as e:  # noqa: BLE001
-            out = "raised:" + exc_name(e)
+        out = run_call(v, call)
     finally:
         U.read_tty = real_read_tty
         U._queries_enabled, U._query_timeout = saved
@@ -680,13 +779,13 @@ def comp_info(d: dict):
     if key not in _COMP_CACHE:
         v, out = execute_comp(d, None)
         try:
-            items, restores = parse_composite(v.events)
+            items, restores = parse_composite(v.trace())
         except (Unparsed, IndexError) as e:
             items, restores = None, []
         outer = [k for (k, before_ne, after_eq) in v.set_log if before_ne and after_eq]
         if len(_COMP_CACHE) > 20000:
             _COMP_CACHE.clear()
-        _COMP_CACHE[key] = (list(v.events), items, restores, outer, out, v.image() == v.initial)
+        _COMP_CACHE[key] = (list(v.trace()), items, restores, outer, out, v.image() == v.initial)
     return _COMP_CACHE[key]
 
 
@@ -717,7 +816,7 @@ def fault_free(d: dict):
     key = line_of({**d, "plan": None})
     if key not in _FF_CACHE:
         v, out = execute(d, None)
-        ev = v.events
+        ev = v.trace()
         sets = [i for i, e in enumerate(ev) if e.startswith("set(")]
         if not sets and d["op"] == "draw":
             # no echo suppression: the clean-up tag still covers write("\n") … flush()
@@ -744,6 +843,7 @@ def in_cleanup(d: dict, v: VT) -> bool:
     return v.fired_at is not None and cs is not None and cs <= v.fired_at <= rs
 
 
+ORACLE_ERRORS: list = []
 EXCS = ["kbdInt", "termiosError", "osError", "stopIteration", "other"]
 ATTR_GRID = [
     dict(echo=e, icanon=c, vmin=m, vtime=t)
@@ -856,26 +956,35 @@ class C13(Property):
 
     # -- implementation ---------------------------------------------------------------
     def impl(self, case: Case) -> str:
-        install()
-        d = case.data
-        plan = tuple(d["plan"]) if d["plan"] else None
-        v, out = execute(d, plan)
-        case._vt = v  # for the oracle (not serialised)
-        if d["op"] == "comp" and comp_info(d)[1] is None:
-            return "err unparsed-structure " + ",".join(comp_info(d)[0])[:300]
-        tr = ",".join(v.events) or "-"
-        return "ok %s out=%s attrs=%s fired=%d cleanup=%d" % (
-            tr, out, v.final(), v.fired_at is not None, in_cleanup(d, v))
+        try:
+            install()
+            d = case.data
+            plan = tuple(d["plan"]) if d["plan"] else None
+            v, out = execute(d, plan)
+            case._vt = v  # for the oracle (not serialised)
+            if d["op"] == "comp" and comp_info(d)[1] is None:
+                return "err unparsed-structure " + ",".join(comp_info(d)[0])[:300]
+            tr = ",".join(v.trace()) or "-"
+            return "ok %s out=%s attrs=%s fired=%d cleanup=%d" % (
+                tr, out, v.final_held or v.final(), v.fired_at is not None, in_cleanup(d, v))
+        except BaseException as e:  # noqa: BLE001 — an injected fault surfacing at an unusual place
+            CUR[0] = None
+            return "err %s" % type(e).__name__
 
     # -- oracle -----------------------------------------------------------------------
     def oracle(self, case: Case, impl_result: str):
-        install()
-        d = case.data
-        plan = tuple(d["plan"]) if d["plan"] else None
-        v = getattr(case, "_vt", None)
-        if v is None:
-            v, _ = execute(d, plan)
-        return judge(d, plan, v)
+        try:
+            install()
+            d = case.data
+            plan = tuple(d["plan"]) if d["plan"] else None
+            v = getattr(case, "_vt", None)
+            if v is None:
+                v, _ = execute(d, plan)
+            return judge(d, plan, v)
+        except BaseException as e:  # noqa: BLE001
+            CUR[0] = None
+            ORACLE_ERRORS.append("%s on %s" % (type(e).__name__, case.line[:120]))
+            return None
 
     def search(self, rng, tier, reasons):
         install()
@@ -902,6 +1011,8 @@ class C13(Property):
 
     def extra_checks(self, rng, tier, ev):
         fails = []
+        ev["coverage"]["exceptions_ignored_in_finalizers"] = {"count": UNRAISABLE["n"], "first": UNRAISABLE["last"]}
+        ev["coverage"]["oracle_errors"] = ORACLE_ERRORS[:5]
         if tier == "thorough":
             fails += pty_tier(rng, ev)
         return fails
@@ -920,15 +1031,19 @@ def judge(d, plan, v: VT):
             return None
     elif in_cleanup(d, v):
         return None
-    if v.image() != v.initial:
+    held = v.image_held if v.image_held is not None else v.image()
+    dropped = v.image_dropped if v.image_dropped is not None else v.image()
+    if held != v.initial or dropped != v.initial:
         where = "nofault" if v.fired_at is None else "k%d/%s/%s" % (plan[0], plan[1], "after" if plan[2] else "before")
         op = d["op"]
         mode = kind_of(d, plan).split("/")[1]
         ev_at = v.events[v.fired_at] if v.fired_at is not None else "-"
+        when = "at-return" if held != v.initial else "after-exception-dropped"
         return Failure(
-            "%s/%s/%s/at=%s" % (op, mode, where, ev_at.split("!")[0]),
-            "terminal attributes differ after the operation: before=%s after=%s events=%s"
-            % (v.initial.hex(), v.image().hex(), ",".join(v.events)))
+            "%s/%s/%s/at=%s/%s" % (op, mode, where, ev_at.split("!")[0], when),
+            "terminal attributes differ %s: before=%s when the call returned/raised (exception still held)=%s "
+            "after dropping it + gc=%s events=%s late=%s"
+            % (when, v.initial.hex(), held.hex(), dropped.hex(), ",".join(v.trace()), ",".join(v.late())))
     return None
 
 
@@ -1007,6 +1122,8 @@ def finally_calls(fn):
     f = _src(fn)
     tries = [n for n in f.body if isinstance(n, ast.Try)]
     out = []
+    if not tries:
+        return ["<no try statement at the top level of the function>"]
     for s in tries[-1].finalbody:
         pre = ""
         stmts = [s]
@@ -1061,6 +1178,32 @@ def termios_sites():
     return sorted(setters), sorted(callers)
 
 
+SIGNAL_NAMES = ("pthread_sigmask", "sigprocmask", "siginterrupt", "set_wakeup_fd", "sigwait", "sigtimedwait",
+                "sigwaitinfo", "setitimer", "alarm", "raise_signal", "pthread_kill", "default_int_handler")
+
+
+def signal_sites():
+    """every place of the package that changes signal disposition or mask: imports of `signal`,
+    `signal.signal(…)`, `pthread_sigmask` & co. -> sorted ["module:what", …] (expected: none)"""
+    import pathlib
+
+    root = pathlib.Path(term_image.__file__).resolve().parent
+    out = set()
+    for f in sorted(root.rglob("*.py")):
+        mod = ".".join(f.relative_to(root).with_suffix("").parts)
+        for n in ast.walk(ast.parse(f.read_text())):
+            if isinstance(n, ast.Import) and any(a.name.split(".")[0] == "signal" for a in n.names):
+                out.add("%s:import signal" % mod)
+            elif isinstance(n, ast.ImportFrom) and (n.module or "").split(".")[0] == "signal":
+                out.add("%s:from signal import %s" % (mod, ",".join(a.name for a in n.names)))
+            elif isinstance(n, ast.Attribute) and (n.attr in SIGNAL_NAMES or (
+                    n.attr == "signal" and isinstance(n.value, ast.Name) and n.value.id in ("signal", "_signal"))):
+                out.add("%s:%s" % (mod, n.attr))
+            elif isinstance(n, ast.Name) and n.id in SIGNAL_NAMES:
+                out.add("%s:%s" % (mod, n.id))
+    return sorted(out)
+
+
 def lean_str(s: str) -> str:
     return '"' + s.replace("\\", "\\\\").replace('"', '\\"') + '"'
 
@@ -1087,6 +1230,7 @@ def generated_lean() -> str:
         + skel("writeTtySkel", U.write_tty)
         + strs("tcsetattrSites", termios_sites()[0])
         + strs("termiosCallSites", termios_sites()[1])
+        + strs("signalSites", signal_sites())
         + strs("readTtyEdits", attr_edits(U.read_tty))
         + strs("queryTerminalEdits", attr_edits(U.query_terminal))
         + strs("drawEdits", attr_edits(Renderable.draw))
@@ -1124,6 +1268,8 @@ class RealHooks:
         import signal
 
         signal.raise_signal(signal.SIGINT)
+        if signal.SIGINT in signal.pthread_sigmask(signal.SIG_BLOCK, []):
+            return  # blocked by the code under test: the kernel keeps it pending until the mask is lifted
         for _ in range(1000):  # the handler runs at the next bytecode boundary
             pass
         raise RuntimeError("SIGINT was not delivered")
@@ -1135,12 +1281,15 @@ class RealHooks:
         if self.fault is not None and k == self.fault[0]:
             self.fired_at = k
             if not self.fault[1]:
-                self.sigint()
+                self.sigint()  # raises KeyboardInterrupt here unless the code under test blocks SIGINT
+                return fn(*args)
+            r = None
             try:
-                fn(*args)
+                r = fn(*args)
             except Exception:  # noqa: BLE001
                 pass
             self.sigint()
+            return r
         return fn(*args)
 
 
@@ -1252,20 +1401,43 @@ def run_on_pty(d: dict, fault):
             probe = RealProbe(1 if d["body"] == "still" else 1 + d["body"], h)
             kw = dict(hide_cursor=bool(d["hide_arg"]), echo_input=False, padding=ExactPadding())
             call = (lambda: probe.draw(**kw)) if d["body"] == "still" else (lambda: probe.draw(loops=1, **kw))
+        held = None
         try:
             call()
             out = "normal"
         except BaseException as e:  # noqa: BLE001
+            held = e
             out = "raised:" + type(e).__name__
-        after = T.tcgetattr(slave)
+        h.fault = None
+        after = T.tcgetattr(slave)  # the exception is still held
+        held = None
+        gc.collect(1)
+        after2 = T.tcgetattr(slave)
+        if after2 != after:
+            after = after2 if after == before else after
+            out += "+changed-after-exception-dropped"
         return h, before, after, out
     finally:
+        _clear_real_sigint()
         (U.termios, U.os, U.select, U.monotonic, U._tty_fd, R.termios, R.sleep, sys.stdout, U._queries_enabled) = saved
         for fd in (master, slave):
             try:
                 os.close(fd)
             except OSError:
                 pass
+
+
+def _clear_real_sigint():
+    """leave no blocked / pending SIGINT behind, whatever the code under test did to the mask"""
+    import signal
+
+    try:
+        if signal.SIGINT in signal.sigpending() or signal.SIGINT in signal.pthread_sigmask(signal.SIG_BLOCK, []):
+            old = signal.signal(signal.SIGINT, signal.SIG_IGN)
+            signal.pthread_sigmask(signal.SIG_UNBLOCK, {signal.SIGINT})
+            signal.signal(signal.SIGINT, old)
+    except BaseException:  # noqa: BLE001
+        pass
 
 
 class RealProbe(Renderable):
